@@ -4,11 +4,13 @@ A(o, n, t, k) == [owner |-> o, name |-> n, target |-> t, kind |-> k]
 Tree == {
   A("M:pk", "mod", "M:pk.mod", "module"), A("M:pk", "sub", "M:pk.sub", "module"), A("M:pk", "alias", "M:pk.alias", "module"),
   A("M:pk.sub", "mod", "M:pk.sub.mod", "module"),
+  A("M:pk", "sib", "M:pk.sib", "module"), A("M:pk.sib", "mod", "M:pk.sib.mod", "module"), A("M:pk.sib.mod", "fn", "fn6", "fn"),   \* a sibling with the same leaf name
   A("M:pk.mod", "fn", "fn", "fn"), A("M:pk.mod", "Cls", "Cls", "cls"), A("Cls", "meth", "meth", "method"), A("Cls", "Inner", "Inner", "cls"),
   A("M:pk.sub.mod", "fn", "fn5", "fn"),
   A("M:pk.alias", "fn", "fn", "fn") }                         \* the same function object under a second module path
 Mods == (<<"pk">> :> "M:pk") @@ (<<"pk","mod">> :> "M:pk.mod") @@ (<<"pk","sub">> :> "M:pk.sub")
         @@ (<<"pk","sub","mod">> :> "M:pk.sub.mod") @@ (<<"pk","alias">> :> "M:pk.alias")
+        @@ (<<"pk","sib">> :> "M:pk.sib") @@ (<<"pk","sib","mod">> :> "M:pk.sib.mod")
 Extra == (<<"pk","alias">> :> {<<"pk","mod">>})
 Imp(form, module, alias) == [t |-> "import", form |-> form, module |-> module, alias |-> alias]
 Bnd(sel, param, val) == [t |-> "bind", sel |-> sel, param |-> param, val |-> val, ref |-> <<>>]
@@ -18,11 +20,22 @@ DynSkips == { [mode |-> "false", names |-> {}], [mode |-> "true", names |-> {}],
 Tpl == {
   Imp("plain", <<"pk","mod">>, ""), Imp("plain", <<"pk","sub","mod">>, ""), Imp("as", <<"pk","mod">>, "m"),
   Imp("from", <<"pk","mod">>, ""), Imp("from", <<"pk","sub","mod">>, ""), Imp("fromas", <<"pk","alias">>, "al"),
-  Imp("plain", <<"pk","nope">>, ""), Imp("as", <<"pk","mod">>, "gin"),
+  Imp("plain", <<"pk","nope">>, ""), Imp("as", <<"pk","mod">>, "gin"), Imp("plain", <<"pk","sib","mod">>, ""),
+  Bnd(<<"pk","sib","mod","fn">>, "x", "6"),
   Bnd(<<"pk","mod","fn">>, "x", "1"), Bnd(<<"m","fn">>, "x", "2"), Bnd(<<"mod","fn">>, "x", "3"), Bnd(<<"al","fn">>, "y", "4"),
   Bnd(<<"pk","mod","Cls">>, "x", "1"), Bnd(<<"pk","mod","Cls","meth">>, "x", "2"), Bnd(<<"mod","Cls","Inner">>, "x", "3"),
   Bnd(<<"pk","sub","mod","fn">>, "x", "5"), Bnd(<<"zz","fn">>, "x", "1"), Bnd(<<"pk","mod","nope">>, "x", "1"),
   BndRef(<<"pk","mod","fn">>, "y", <<"pk","mod","Cls">>), BndRef(<<"m","fn">>, "y", <<"m","Cls">>),
   BndRef(<<"pk","mod","fn">>, "y", <<"zz","fn">>), Bnd(<<"pk","sub","mod","nope">>, "x", "1"),
   [t |-> "enable"] }
+NoPrev == { <<>> }
+\* earlier files: one that registered fn through pk.mod, one that registered pk.sub.mod's fn through a from-import
+Prevs == { <<>>, << Imp("plain", <<"pk","mod">>, ""), Bnd(<<"pk","mod","fn">>, "x", "9") >>,
+           << Imp("from", <<"pk","sub","mod">>, ""), Bnd(<<"mod","fn">>, "y", "8"), Imp("plain", <<"pk","mod">>, ""), Bnd(<<"pk","mod","Cls">>, "x", "7") >> }
+\* the history family: few templates, every earlier file
+TplHist == { Imp("plain", <<"pk","mod">>, ""), Imp("plain", <<"pk","sub","mod">>, ""), Imp("from", <<"pk","sub","mod">>, ""),
+  Bnd(<<"pk","mod","fn">>, "x", "1"), Bnd(<<"mod","fn">>, "x", "3"), Bnd(<<"pk","mod","Cls">>, "x", "1"), Bnd(<<"pk","sub","mod","fn">>, "x", "5"),
+  BndRef(<<"pk","mod","fn">>, "y", <<"pk","mod","Cls">>), BndRef(<<"mod","fn">>, "y", <<"pk","mod","fn">>) }
+HistSkips == { [mode |-> "false", names |-> {}], [mode |-> "true", names |-> {}],
+               [mode |-> "list", names |-> {<<"pk","mod","fn">>, <<"mod","fn">>}] }
 =============================================================================
